@@ -8,7 +8,9 @@ INFO = ("YRenderScalar (TLA+ reference): the presentations YAML 1.2.2 allows for
         "double-quoted with a per-character choice of literal / short escape / \\x / \\u / \\U, line folding (k line feeds = k+1 breaks, one space = one break, padding before and "
         "indentation after a break are not content), escaped line breaks -- in nine syntactic contexts (top level, block key/value, sequence entry, nested value, flow entry/key/value, "
         "explicit key). Gen_Scalar: TLC enumerates every target of <= 2 characters over an 11-symbol tricky alphabet x style x context x every choice vector, "
-        "and simulates targets of <= 7 characters over an 18-symbol alphabet (NUL, ESC, NEL, astral, flow indicators); every rendered stream is replayed on the real parser through "
+        "every single character of a 27-symbol alphabet that has every named escape of section 5.7 (\\0 \\a \\b \\t \\<TAB> \\n \\v \\f \\r \\e \\<space> \\\" \\/ \\\\ \\N \\_ \\L \\P) in every form and context, 28 fixed "
+        "targets whose middle word looks like syntax (--- ... - # ? : | > &x *x !t %Y [x] {x} quotes) under every placement of <= 2 line folds / escaped breaks, "
+        "and simulates targets of <= 7 characters over the 27-symbol alphabet (NUL, ESC, NEL, astral, flow indicators); every rendered stream is replayed on the real parser through "
         "both back-ends and the scalar's value and style compared with the target; the scanner model must agree too (drift otherwise).",
         "Presentation rules as read in DESIGN.md appendix A.6/A.7 (conservative: a top-level plain scalar is continued at column >= 1; no continuation line starts with an indicator).",
         "TLA+ reference presentation rules; TLC-enumerated behaviours replayed into the real parser", "7/C04")
@@ -25,6 +27,13 @@ def run(ck):
     if not m["ok"]:
         raise ToolError("Gen_Scalar did not complete: %s" % m["tail"][-800:])
     outs = [m["out"]]
+    # every character of the wide alphabet alone (the complete table of named escapes, every escape form, every context), and the
+    # fixed targets (words that look like syntax -- document markers, indicators, comments -- at the start of a continuation line)
+    for cfg in ["Gen_Scalar_esc", "Gen_Scalar_fixed"]:
+        mm = props.tlc_cached(ck, "Gen_Scalar", cfg, deps, workers=8, keep_out=True, timeout=3600)
+        if not mm["ok"]:
+            raise ToolError("%s did not complete: %s" % (cfg, mm["tail"][-800:]))
+        outs.append(mm["out"])
     sim = ck.wd("sim.out")
     r = tlc("Gen_Scalar", cfg="Gen_Scalar_sim", workers=8, out_path=sim, name="c04_sim", simulate=300 if ck.tier == "quick" else 6000, depth=20, timeout=7200)
     ck.add_tlc(r)
